@@ -434,7 +434,17 @@ class Tr:
         """state-threading calls: `keys.next(&k)` rebinding `keys`, the callback `func(..)` whose `Ok` carries the new
         closure state, child calls `T::traverse_by_key(keys, func)` returning `(result, func)`"""
         spec = self.tb.effects[key]
+        if "nargs" in spec:
+            # only the first `nargs` arguments are values of the modelled world (the rest are handles of the environment)
+            e_args = e_args[:spec["nargs"]]
+        wraps = {}
+        if "argwrap" in spec and e_args:
+            tag = "Str" if e_args[0][0] == "str" else self.tag_of(e_args[0])
+            if tag not in spec["argwrap"]:
+                raise Unsupported(f"{self.fname}: {key}: first argument of kind {tag!r} ({e_args[0]!r})")
+            wraps[0] = spec["argwrap"][tag]
         def with_args(ts):
+            ts = [wraps[i].format(self.par(t)) if i in wraps else t for i, t in enumerate(ts)]
             term = spec["fmt"].format(*[self.par(t) for t in ts])
             if "pair" in spec:       # let (r, <var>) := term
                 r = self.fresh("r")
@@ -582,6 +592,9 @@ class Tr:
     def macro(self, e, ctx, k):
         name, parts = e[1], e[2]
         from minirust import parse_expr_tokens, parse_pattern_tokens
+        if name in getattr(self.tb, "quiet_macros", ()):
+            self.notes.append(f"{name}!(..) (logging) not translated")
+            return k("()")
         if name in ("debug_assert", "debug_assert_eq") and getattr(self.tb, "debug_asserts", False):
             name = name[6:]     # debug profile: checked like assert! / assert_eq!
         if name in ("debug_assert", "debug_assert_eq", "debug_assert_ne"):
@@ -612,6 +625,11 @@ class Tr:
                     return k("()")
                 return self.ex(tail, ctx, k)
             s = stmts[i]
+            if s[0] == "letelse":
+                # `let PAT = e else { diverges };`  ==  match e { PAT => rest, _ => else-block }
+                p = self.pat(s[1])
+                return self.ex(s[2], ctx, lambda t: ("match", t, [([p], go(i + 1)),
+                                                                  (["_"], self.block(s[3], ctx, lambda _t: self.panic(ctx, "let-else block fell through")))]))
             if s[0] == "let":
                 if s[2] is None:
                     raise Unsupported(f"{self.fname}: let without initialiser")
